@@ -13,6 +13,12 @@ CHECKS = {
    design_ref="DESIGN.md §6 C05"),
 }
 
+CHECKS["C03"] = dict(level="exploration",
+   text="Runtime monitoring of the real normaliser through ExecutionEngine.Execute (the engine's own two-pass admission sequence, observed at the request-option boundary through the verif engine accessor) and through Request.Normalize's default options, on generated schemas x valid-by-construction operations x coercible variables. Oracles on every case: an independent reference executor (gqlparser AST, own input coercion) run on the original and on the normalised operation with the rewritten variables for two hash-defined universes whose values depend on the coerced arguments; validity of the normalised operation for gqlparser and for the repository validator; second normalisation is a no-op; construction-equivalent variants reach the same canonical print and variables. Held on the executions observed.",
+   note="Trusted: gqlparser's parser/validator for the documents judged (cross-checked by construction: a self-check failure is broken machinery, never a violation), the harness's reference coercer/executor and generators. Admission refusals are left undecided here (C04/C06 decide acceptance).",
+   technique="differential runtime monitor: reference executor on original vs normalised operation, idempotence and metamorphic variant equality over generated cases",
+   design_ref="DESIGN.md §6 C03")
+
 NOT_YET = {
 }
 
